@@ -134,6 +134,7 @@ def addRange (ps : PartSet) (name : String) (start stop modulo : Int) : PartSet 
   if start < 0 then (ps, .err)
   else if stop ≥ ps.length then (ps, .err)
   else if modulo ≤ 0 then (ps, .err)
+  else if start > stop then (ps, .err)
   else
     let (names, idx) := match ps.names.findIdx? (· == name) with
       | some i => (ps.names, (i : Int))
